@@ -70,6 +70,14 @@ void vp_sample (const char *fmt, ...) {
   char msg[2048]; va_list ap; va_start (ap, fmt); vsnprintf (msg, sizeof msg, fmt, ap); va_end (ap); sanitize (msg);
   fprintf (out, "SAMPLE\t%s\n", msg); nsamples++;
 }
+#if defined(__SANITIZE_ADDRESS__)
+#include <sanitizer/asan_interface.h>
+static volatile int asan_errs;
+void __asan_on_error (void) { asan_errs++; } /* with -fsanitize-recover=address + halt_on_error=0 the run continues */
+#define ASAN_ERRS asan_errs
+#else
+#define ASAN_ERRS 0
+#endif
 static double now (void) { struct timespec ts; clock_gettime (CLOCK_MONOTONIC, &ts); return ts.tv_sec + ts.tv_nsec * 1e-9; }
 
 int vp_main (int argc, char **argv) {
@@ -112,7 +120,11 @@ int vp_main (int argc, char **argv) {
     if (describe_only) return 0;
     cur_idx = only; st->cur_idx = only; st->state = 0;
     if (case_timeout) alarm (case_timeout);
+    int ae = ASAN_ERRS;
     drv_case (only); alarm (0);
+#if defined(__SANITIZE_ADDRESS__)
+    if (ASAN_ERRS != ae) vp_fail ("asan", "AddressSanitizer: %s at %p (%d report(s) in this case)", __asan_get_report_description (), __asan_get_report_address (), ASAN_ERRS - ae);
+#endif
     fprintf (out, "RESULT\t%s\n", cur_failed ? "FAIL" : "OK"); fflush (out);
     return 0;
   }
@@ -124,8 +136,12 @@ int vp_main (int argc, char **argv) {
     if (deadline > 0 && (k & 15) == 0 && now () - t0 > deadline) { st->state = 3; break; }
     cur_idx = i; cur_failed = 0; cur_nontrivial = 0; st->cur_idx = i; st->state = 0;
     if (case_timeout) setitimer (ITIMER_REAL, &tv, NULL);
+    int ae = ASAN_ERRS;
     drv_case (i);
     if (case_timeout) setitimer (ITIMER_REAL, &off, NULL);
+#if defined(__SANITIZE_ADDRESS__)
+    if (ASAN_ERRS != ae) vp_fail ("asan", "AddressSanitizer: %s at %p (%d report(s) in this case)", __asan_get_report_description (), __asan_get_report_address (), ASAN_ERRS - ae);
+#endif
     st->state = 1; st->done_cases++; st->last_done_idx = i; if (cur_nontrivial) st->nontrivial++;
   }
   if (st->state != 3) st->state = 2;
